@@ -165,7 +165,39 @@ def takeIdentical (a : Ent) : List Ent → Option Ent × List Ent
 def byName (a : Ent) (bs : List Ent) : List Ent × List Ent :=
   (bs.filter fun b => !sameKey a b, bs.filter (sameKey a))
 
-def matchOne (before : List Ent) (a : Ent) : Matched × List Ent :=
+/-- first pass of `matchEntries` for one HEAD rule: claim the first identical base rule -/
+def pass1One (before : List Ent) (a : Ent) : Matched × List Ent :=
+  match takeIdentical a before with
+  | (some b, rest) => ({ before := some b, after := some a, isIdentical := b.disabled == a.disabled, wasMoved := a.path != b.path }, rest)
+  | (none, rest) => ({ before := none, after := some a, isIdentical := false, wasMoved := false }, rest)
+
+def pass1 : List Ent → List Ent → List Matched × List Ent
+  | before, [] => ([], before)
+  | before, a :: as =>
+    ((pass1One before a).1 :: (pass1 (pass1One before a).2 as).1, (pass1 (pass1One before a).2 as).2)
+
+/-- second pass for one HEAD rule left without an identical base rule: match by type and name, if unambiguous -/
+def pass2One (before : List Ent) (m : Matched) : Matched × List Ent :=
+  match m.before, m.after with
+  | none, some a =>
+    match byName a before with
+    | (others, [b]) => ({ before := some b, after := some a, isIdentical := false, wasMoved := a.path != b.path }, others)
+    | (others, []) => (m, others)
+    | (others, ms) => (m, others ++ ms)
+  | _, _ => (m, before)
+
+def pass2 : List Ent → List Matched → List Matched × List Ent
+  | before, [] => ([], before)
+  | before, m :: ms =>
+    ((pass2One before m).1 :: (pass2 (pass2One before m).2 ms).1, (pass2 (pass2One before m).2 ms).2)
+
+/-- both passes: the HEAD rules in order with what they were matched to, and the base rules left over -/
+def matchAfter (before after : List Ent) : List Matched × List Ent :=
+  pass2 (pass1 before after).2 (pass1 before after).1
+
+/-! the single-pass matching of the code before the `fix:` commit (identical and by-name matching interleaved per
+HEAD rule) -/
+def matchOneOld (before : List Ent) (a : Ent) : Matched × List Ent :=
   match takeIdentical a before with
   | (some b, rest) => ({ before := some b, after := some a, isIdentical := b.disabled == a.disabled, wasMoved := a.path != b.path }, rest)
   | (none, rest) =>
@@ -174,10 +206,10 @@ def matchOne (before : List Ent) (a : Ent) : Matched × List Ent :=
     | (others, []) => ({ before := none, after := some a, isIdentical := false, wasMoved := false }, others)
     | (others, ms) => ({ before := none, after := some a, isIdentical := false, wasMoved := false }, others ++ ms)
 
-def matchAfter : List Ent → List Ent → List Matched × List Ent
+def matchAfterOld : List Ent → List Ent → List Matched × List Ent
   | before, [] => ([], before)
   | before, a :: as =>
-    ((matchOne before a).1 :: (matchAfter (matchOne before a).2 as).1, (matchAfter (matchOne before a).2 as).2)
+    ((matchOneOld before a).1 :: (matchAfterOld (matchOneOld before a).2 as).1, (matchAfterOld (matchOneOld before a).2 as).2)
 
 def matchEntries (before after : List Ent) : List Matched :=
   (matchAfter before after).1 ++ (matchAfter before after).2.map fun b => { before := some b, after := none, isIdentical := false, wasMoved := false }
